@@ -62,6 +62,13 @@ func Race() {
 			vx.Assert("C14.setup_ok", err == nil)
 		}
 		vx.ClockFreeze(false)
+		// resession=1: a warm process may have opened a new session since (its factory's system-key cache is warm,
+		// the session's intermediate-key cache is cold)
+		if vx.Param("resession") == 1 && vx.Choice("first_process_new_session", 2) == 1 {
+			procs[0].s.Close()
+			procs[0].s, _ = procs[0].f.GetSession("p0")
+			vx.Reach("C14.warm_factory_new_session")
+		}
 	}
 	// revocations are noticed by warm processes only after the revoke-check interval: race either inside it
 	// (warm caches still trusted) or after it
